@@ -947,6 +947,9 @@ func evalProperty(w *world, s *stepSpec, before *stepOut, o *stepOut) {
 func runCase(raw json.RawMessage) interface{} {
 	var c caseIn
 	must(json.Unmarshal(raw, &c))
+	if c.Mode == "overlap" {
+		return runOverlap(raw)
+	}
 	out := &caseOut{PropOK: true, Steps: []stepOut{}}
 	w, err := newWorld(&c)
 	if w != nil {
